@@ -117,7 +117,7 @@ func (rn *runner) do(o op, tag string) outcome {
 	for i, r := range out.Rw {
 		rw[i] = zlist(r)
 	}
-	rn.cf.Add(fmt.Sprintf("CStep (mkCase %s %d %d %s %s %s %s %d %s %s %s)", opTerm, out.Ct, rn.maxE, zlist(leak),
+	rn.cf.Add(fmt.Sprintf("CStep (mkCase %s %d %s %d %s %s %s %s %d %s %s %s)", opTerm, out.Ct, emit.Z(out.Ret), rn.maxE, zlist(leak),
 		emit.List(rw), emit.Z(out.Released), pre.coqRel(nil, hide), out.Class, postTerm, emit.Bool(fresh), grem))
 
 	// statistics
@@ -212,6 +212,7 @@ func coins(pairs ...any) sdk.Coins {
 func (rn *runner) corpus() {
 	h := rn.w.h
 	ms := time.Millisecond
+	rn.corpusZeroSaver()
 	rn.do(op{Kind: kDelegate, U: 0, V: 0, Amt: bi(1_000_000)}, "corpus")
 	rn.do(op{Kind: kDelegate, U: 1, V: 0, Amt: bi(3_000_000)}, "corpus")
 	rn.do(op{Kind: kDelegate, U: 2, V: 1, Amt: bi(2_000_000)}, "corpus")
@@ -243,6 +244,46 @@ func (rn *runner) corpus() {
 		rn.do(op{Kind: kBlock, Dt: time.Unix(0, first).Sub(h.Time)}, "corpus:subsecond")
 		rn.do(op{Kind: kBlock, Dt: 2 * time.Second}, "corpus:subsecond")
 	}
+}
+
+// corpusZeroSaver: a delegator joins (or returns) while the reward saver holds exactly nothing of
+// a denom whose multiplier is already positive. A sole holder of 10^6 shares is paid exactly
+// everything (reward / 10^6 is a finite decimal, x 10^6 is the reward), in urise and in uusdc;
+// then the second delegator comes, more rewards arrive through real blocks, and both claim:
+// joiner first on validator 2 (where the joiner is a returning delegator who had undelegated
+// everything), incumbent first on validator 1. Regression for a claim that advances the
+// checkpoints only of the denoms the saver currently holds.
+func (rn *runner) corpusZeroSaver() {
+	ms := time.Millisecond
+	tag := "corpus:zero-saver"
+	m := bi(1_000_000)
+	rn.do(op{Kind: kBlock, Dt: 600 * ms}, tag) // completion times below end in .6 s
+	rn.do(op{Kind: kDelegate, U: 3, V: 2, Amt: m}, tag)
+	rn.do(op{Kind: kDelegate, U: 0, V: 2, Amt: m}, tag)
+	rn.do(op{Kind: kUndelegate, U: 3, V: 2, Amt: m, Rcp: -3}, tag) // leaves completely, returns below
+	rn.do(op{Kind: kDelegate, U: 1, V: 1, Amt: m}, tag)
+	f1 := coins("urise", bi(3_000_000), "uusdc", bi(600_000))
+	rn.do(op{Kind: kBlock, Dt: 1300 * ms, Fees: f1}, tag)
+	rn.do(op{Kind: kBlock, Dt: 1300 * ms}, tag)
+	rn.do(op{Kind: kClaim, U: 0, V: 2}, tag) // sole holders: paid everything
+	rn.do(op{Kind: kClaim, U: 1, V: 1}, tag)
+	d := rn.w.dump(rn.w.h.Ctx())
+	for _, v := range []int{1, 2} {
+		for _, dn := range []int{0, 2} {
+			if d.Cells[v].S[dn].Sign() == 0 && d.Cells[v].M[dn].C.Sign() > 0 {
+				rn.st.Count("corpus:saver-zero-with-positive-multiplier")
+			}
+		}
+	}
+	rn.do(op{Kind: kDelegate, U: 3, V: 2, Amt: m}, tag) // returning delegator
+	rn.do(op{Kind: kDelegate, U: 2, V: 1, Amt: m}, tag) // new delegator
+	f2 := coins("urise", bi(24_000_000), "uusdc", bi(4_800_000))
+	rn.do(op{Kind: kBlock, Dt: 1300 * ms, Fees: f2}, tag)
+	rn.do(op{Kind: kBlock, Dt: 1300 * ms}, tag)
+	rn.do(op{Kind: kClaim, U: 3, V: 2}, tag) // joiner first
+	rn.do(op{Kind: kClaim, U: 0, V: 2}, tag)
+	rn.do(op{Kind: kClaim, U: 1, V: 1}, tag) // incumbent first
+	rn.do(op{Kind: kClaim, U: 2, V: 1}, tag)
 }
 
 // Run generates n cases from seed, runs them on the real application and writes
